@@ -55,6 +55,7 @@ class DC:
         self.segment: t.Optional[t.Callable[[bytes], t.List[t.Optional[bytes]]]] = None
         self.l2_at_31 = True
         self.reply_pad_extra = 0  # extra 16-byte blocks of auth padding (still conforming)
+        self.reply_pad: t.Optional[int] = None  # exact auth padding to use (None = minimal 16-byte alignment); may misalign the trailer
         self.envelope_override: t.Optional[t.Callable[[gkdi.Envelope], gkdi.Envelope]] = None
         self.server_tokens: t.List[bytes] = [b"S-TOKEN-1", b"S-TOKEN-2", b"S-TOKEN-3", b"S-TOKEN-4"]
         self.server_legs = 1  # scripted context: number of server tokens before it is complete
@@ -318,6 +319,8 @@ class Conn:
         import spnego.iov as siov
 
         pad = -len(reply_stub) % 16 + 16 * self.dc.reply_pad_extra
+        if self.dc.reply_pad is not None:
+            pad = self.dc.reply_pad
         body = reply_stub + b"\x00" * pad
         sig_len = self.ctx.query_message_sizes().header
         total = 24 + len(body) + 8 + sig_len
